@@ -93,6 +93,16 @@ func twoPartyCircuit(cs *vrt.Case, r *vrt.Rng, sel int, maxGates int) (*circuit.
 		}
 		return c, "generated program " + fmt.Sprint(vrt.Hash64(g.Src))
 	}
+	if sel%11 == 6 {
+		// a wide evaluator argument: more than 512 / 1024 input wires go
+		// through one OT batch (several IKNP chunks)
+		sh := refc.RandShape(r, 2, maxGates)
+		sh.Kind = 4
+		sh.Args = []int{vrt.Pick(r, []int{1, 3, 8, 64}), vrt.Pick(r, []int{513, 520, 640, 1023, 1025, 1100, 1537, 2050})}
+		sh.Gates = 3*sh.Args[1] + r.Intn(500)
+		sh.Outs = []int{vrt.Pick(r, []int{8, 33, 64}), vrt.Pick(r, []int{1, 16, 128})}
+		return refc.Gen(r, sh), fmt.Sprintf("generated wide %v->%v gates=%d", sh.Args, sh.Outs, sh.Gates)
+	}
 	switch sel % 4 {
 	case 0, 1:
 		sh := refc.RandShape(r, 2, maxGates)
